@@ -6,9 +6,9 @@ P=$1; W=$2; TIER=${3:-quick}; NAME=${4:-$P}
 cd $W || exit 2
 HASC=0; grep -q '^+++ b/.*\.c$' _seed/patch.diff && HASC=1
 echo "== demo WITH change"; /venv/bin/python _seed/demo.py > /tmp/demo_with_$NAME.txt 2>&1; RW=$?; tail -2 /tmp/demo_with_$NAME.txt | cut -c1-300; echo "exit $RW"
-git stash -q -- dadi; [ $HASC = 1 ] && ./rebuild_ext.sh >/dev/null 2>&1
+git diff -- dadi > /tmp/_cur_$NAME.diff; git apply -R /tmp/_cur_$NAME.diff; [ $HASC = 1 ] && ./rebuild_ext.sh >/dev/null 2>&1
 echo "== demo WITHOUT change"; /venv/bin/python _seed/demo.py > /tmp/demo_without_$NAME.txt 2>&1; RO=$?; tail -2 /tmp/demo_without_$NAME.txt | cut -c1-300; echo "exit $RO"
-git stash pop -q; [ $HASC = 1 ] && ./rebuild_ext.sh >/dev/null 2>&1
+git apply /tmp/_cur_$NAME.diff; [ $HASC = 1 ] && ./rebuild_ext.sh >/dev/null 2>&1
 echo "== check $P ($TIER) against the changed tree"
 cd /verif && DADI_REPO=$W ./check $P --tier $TIER > /tmp/check_$NAME.txt 2>&1; RC=$?
 grep -E "VIOLATION|KNOWN-FINDING|->" /tmp/check_$NAME.txt | head -4; echo "check exit $RC"
